@@ -358,17 +358,17 @@ def _stagnation(spec, ctx, R):
     kappa = embed.cond(A)
     ctx.distinct("stagnation", A, b)
     tags = ["identity_plus_large_rank%d" % rk, "rhs:generic"]
-    for tol in (1e-12, 1e-10):
-        site = "solve[none]:stagnation"
+    for (tol, prec, sp) in ((1e-12, None, False), (1e-10, None, False), (1e-12, None, True), (1e-12, "left_lu", False)):
+        site = f"solve[{prec or 'none'}{',sparse' if sp else ''}]:stagnation"
         try:
-            x, inf = solve(R, A, b, tol=tol)
+            x, inf = solve(R, A, b, tol=tol, prec=prec, sparse=sp)
         except Exception as e:
             ctx.check("M5_solves_within_n_cycles", False, site=site, tags=tags, detail={"exception": repr(e)[:200], "tol": tol})
             continue
         hist = [float(h[2]) for h in (inf.get("residual_history") or [])]
-        if len(hist) > rk + 2:
+        if len(hist) > rk + 2 and prec is None:
             ctx.hit("stagnation:cycled_past_invariance")
-        judge_solve(ctx, A, b, x, inf, tol=tol, cap=None, prec=None, kappa=kappa, site=site, tags=tags)
+        judge_solve(ctx, A, b, x, inf, tol=tol, cap=None, prec=prec, kappa=kappa, site=site, tags=tags)
 
 
 def _zero_rhs(ctx, R, A, b, tags):
